@@ -93,14 +93,17 @@ type caseT struct {
 	Runs    []runRec
 	NLive   int
 	heapTkv int
+	k1      map[string]qs.K1Set // per scorch engine: boolean nodes whose should lost its Min()
 }
 
-func (cs *caseT) record(runs []runRec) map[string]any {
+// record renders the case with the given runs. annotate: the engine whose K1
+// annotation the query carries ("" none: the strict judgement does not read it).
+func (cs *caseT) record(runs []runRec, annotate string) map[string]any {
 	rs := []any{}
 	for _, r := range runs {
 		rs = append(rs, r.json())
 	}
-	return map[string]any{"corpus": cs.Corpus, "q": cs.Q.JSON(), "runs": rs}
+	return map[string]any{"corpus": cs.Corpus, "q": cs.Q.JSONWith(nil, cs.k1[annotate]), "runs": rs}
 }
 
 func doSearch(idx bleve.Index, q query.Query, v variant, size int) ([]int, int, error) {
@@ -124,10 +127,10 @@ func doSearch(idx bleve.Index, q query.Query, v variant, size int) ([]int, int, 
 	return ids, int(res.Total), nil
 }
 
-func proneTo(f qs.Features, v variant) []string {
+func (cs *caseT) proneTo(v variant) []string {
 	// the optimisation needs Score "none" and no term vectors (IncludeLocations
 	// asks for them)
-	return qs.ProneTo(f, v.Eng, v.Score == "none" && !v.Loc)
+	return qs.ProneTo(qs.FeaturesOf(cs.Q, cs.k1[v.Eng]), v.Eng, v.Score == "none" && !v.Loc)
 }
 
 type corpusT struct {
@@ -137,25 +140,38 @@ type corpusT struct {
 	corpus []any
 	idx    map[string]bleve.Index
 	nids   int
+	dirs   []string
 }
 
 func (ct *corpusT) close() {
 	for _, i := range ct.idx {
 		i.Close()
 	}
+	for _, d := range ct.dirs {
+		os.RemoveAll(d)
+	}
 }
 
-func buildCorpus(seed int64, hist qs.History, live map[int]*qs.Doc, nids int) (*corpusT, error) {
+func buildCorpus(c *core.Ctx, seed int64, hist qs.History, live map[int]*qs.Doc, nids int) (*corpusT, error) {
 	im := qs.Mapping()
 	ct := &corpusT{seed: seed, hist: hist, live: live, idx: map[string]bleve.Index{}, nids: nids}
-	r := rand.New(rand.NewSource(seed ^ 0x5eed))
 	for _, e := range qs.Engines {
-		idx, err := qs.NewIndex(e, im)
+		r := rand.New(rand.NewSource(seed ^ 0x5eed))
+		dir := ""
+		mergeAfter := -1
+		if e == qs.EngScorchMerged {
+			dir = c.TempDir("c02idx")
+			ct.dirs = append(ct.dirs, dir)
+			// merge somewhere in the second half of the history, so that the merged
+			// segment gets deletions and small segments follow it
+			mergeAfter = len(hist)/2 + int(uint64(seed)%2)
+		}
+		idx, err := qs.NewIndex(e, im, dir)
 		if err != nil {
 			return nil, err
 		}
 		ct.idx[e] = idx
-		if err := qs.Apply(idx, hist, r); err != nil {
+		if err := qs.ApplyMerging(idx, hist, r, mergeAfter); err != nil {
 			return nil, err
 		}
 		n, err := idx.DocCount()
@@ -182,10 +198,16 @@ func buildCorpus(seed int64, hist qs.History, live map[int]*qs.Doc, nids int) (*
 }
 
 func (ct *corpusT) runCase(q *qs.Node) (*caseT, error) {
-	if err := qs.AnnotateK1(q, ct.idx[qs.EngScorch]); err != nil {
-		return nil, err
+	cs := &caseT{Seed: ct.seed, Hist: ct.hist, Corpus: ct.corpus, Q: q, NLive: len(ct.live), k1: map[string]qs.K1Set{}}
+	for _, e := range qs.Engines {
+		if qs.IsScorch(e) {
+			k1, err := qs.AnnotateK1(q, ct.idx[e])
+			if err != nil {
+				return nil, err
+			}
+			cs.k1[e] = k1
+		}
 	}
-	cs := &caseT{Seed: ct.seed, Hist: ct.hist, Corpus: ct.corpus, Q: q, NLive: len(ct.live)}
 	if cs.Corpus == nil {
 		cs.Corpus = []any{}
 	}
@@ -285,7 +307,7 @@ func engineB(c *core.Ctx) error {
 				r := rand.New(rand.NewSource(seed))
 				nids := 4 + r.Intn(9)
 				h, live := qs.GenHistory(r, nids, 3+r.Intn(5))
-				ct, err := buildCorpus(seed, h, live, nids)
+				ct, err := buildCorpus(c, seed, h, live, nids)
 				if err != nil {
 					mu.Lock()
 					if firstErr == nil {
@@ -342,7 +364,7 @@ func heapRound(c *core.Ctx, nCorp, nQ, depth int) ([]*caseT, error) {
 		r := rand.New(rand.NewSource(seed))
 		nids := 4 + r.Intn(9)
 		h, live := qs.GenHistory(r, nids, 3+r.Intn(5))
-		ct, err := buildCorpus(seed, h, live, nids)
+		ct, err := buildCorpus(c, seed, h, live, nids)
 		if err != nil {
 			return nil, err
 		}
@@ -378,27 +400,28 @@ func judgeCases(c *core.Ctx, cases []*caseT, account bool) error {
 	type recRef struct {
 		cs   *caseT
 		runs []runRec
+		eng  string // prone records: the engine whose K1 annotation applies
 	}
 	var clean []recRef
 	prone := map[string][]recRef{}
 	for _, cs := range cases {
-		f := qs.FeaturesOf(cs.Q)
 		var cleanRuns []runRec
-		byClass := map[string][]runRec{}
+		type ck struct{ class, eng string }
+		byClass := map[ck][]runRec{}
 		for _, r := range cs.Runs {
-			cl := proneTo(f, r.V)
+			cl := cs.proneTo(r.V)
 			if len(cl) == 0 {
 				cleanRuns = append(cleanRuns, r)
 			} else {
-				key := strings.Join(cl, "+")
+				key := ck{strings.Join(cl, "+"), r.V.Eng}
 				byClass[key] = append(byClass[key], r)
 			}
 		}
 		if len(cleanRuns) > 0 {
-			clean = append(clean, recRef{cs, cleanRuns})
+			clean = append(clean, recRef{cs, cleanRuns, ""})
 		}
 		for k, rs := range byClass {
-			prone[k] = append(prone[k], recRef{cs, rs})
+			prone[k.class] = append(prone[k.class], recRef{cs, rs, k.eng})
 		}
 		if account {
 			c.Eval(len(cs.Runs))
@@ -416,7 +439,7 @@ func judgeCases(c *core.Ctx, cases []*caseT, account bool) error {
 	toRecs := func(rs []recRef) []any {
 		out := make([]any, len(rs))
 		for i, r := range rs {
-			out[i] = r.cs.record(r.runs)
+			out[i] = r.cs.record(r.runs, r.eng)
 		}
 		return out
 	}
@@ -600,7 +623,7 @@ func failingClass(c *core.Ctx, cs *caseT, runs []runRec) string {
 	}
 	var recs []any
 	for _, k := range keys {
-		recs = append(recs, cs.record(groups[k]))
+		recs = append(recs, cs.record(groups[k], ""))
 	}
 	bad, err := qs.Judge(c, "JudgeQuery", "JudgeQuery.cfg", qs.DummyQuery, recs, len(recs))
 	if err != nil {
@@ -648,7 +671,7 @@ func failingClass(c *core.Ctx, cs *caseT, runs []runRec) string {
 // shrink: greedy reduction of the query (replace by a sub-query, drop a
 // child) while TLC still rejects the re-executed case. At most 6 rounds.
 func shrink(c *core.Ctx, cs *caseT, runs []runRec) *qs.Node {
-	ct, err := buildCorpus(cs.Seed, cs.Hist, liveOf(cs.Hist), 0)
+	ct, err := buildCorpus(c, cs.Seed, cs.Hist, liveOf(cs.Hist), 0)
 	if err != nil {
 		return nil
 	}
@@ -679,7 +702,7 @@ func shrink(c *core.Ctx, cs *caseT, runs []runRec) *qs.Node {
 					}
 				}
 			}
-			recs = append(recs, k.record(sel))
+			recs = append(recs, k.record(sel, ""))
 			ok = append(ok, q)
 		}
 		if len(recs) == 0 {
@@ -815,6 +838,7 @@ func withKid(q *qs.Node, i int, k *qs.Node) *qs.Node {
 type caseSrc struct {
 	cfg    string
 	layout qs.Layout // must equal SegSizes / Deleted of the cfg
+	engs   []string
 }
 
 type caseA struct {
@@ -826,9 +850,14 @@ type caseA struct {
 func engineA(c *core.Ctx) error {
 	l22 := qs.Layout{Segs: []int{2, 2}, Deleted: []int{1}}
 	l21 := qs.Layout{Segs: []int{2, 1}}
-	srcs := []caseSrc{{"MCSearchers_c02_cases_q.cfg", l22}, {"MCSearchers_c02_cases_deep_q.cfg", l21}}
+	l4 := qs.Layout{Segs: []int{4}, Deleted: []int{1}}
+	mem := []string{qs.EngScorch, qs.EngUpside}
+	// the one-segment layout is built by a forced merge on disk: the segment
+	// zap writes 1-hit postings into
+	srcs := []caseSrc{{"MCSearchers_c02_cases_q.cfg", l22, mem}, {"MCSearchers_c02_cases_deep_q.cfg", l21, mem},
+		{"MCSearchers_c02_cases_m.cfg", l4, []string{qs.EngScorchMerged}}}
 	if c.Thorough() {
-		srcs = []caseSrc{{"MCSearchers_c02_cases_t.cfg", l22}, {"MCSearchers_c02_cases_deep_q.cfg", l21}}
+		srcs[0].cfg = "MCSearchers_c02_cases_t.cfg"
 	}
 	var wg sync.WaitGroup
 	errs := make([]error, len(srcs))
@@ -836,7 +865,7 @@ func engineA(c *core.Ctx) error {
 		wg.Add(1)
 		go func(i int, s caseSrc) {
 			defer wg.Done()
-			errs[i] = engineAOne(c, s.cfg, s.layout)
+			errs[i] = engineAOne(c, s.cfg, s.layout, s.engs)
 		}(i, s)
 	}
 	wg.Wait()
@@ -848,7 +877,7 @@ func engineA(c *core.Ctx) error {
 	return nil
 }
 
-func engineAOne(c *core.Ctx, cfg string, layoutA qs.Layout) error {
+func engineAOne(c *core.Ctx, cfg string, layoutA qs.Layout, engs []string) error {
 	var cases []caseA
 	_, err := qs.DumpVars(c, "MCSearchers", cfg, []string{"q", "post", "hits", "calls"}, func(st map[string]any) error {
 		if tlaval.Int(st["calls"]) != 0 {
@@ -865,8 +894,12 @@ func engineAOne(c *core.Ctx, cfg string, layoutA qs.Layout) error {
 	if err != nil {
 		return err
 	}
-	for _, eng := range qs.Engines {
-		a, err := qs.BuildIndexA(eng, layoutA)
+	for _, eng := range engs {
+		dir := ""
+		if eng == qs.EngScorchMerged {
+			dir = c.TempDir("c02a")
+		}
+		a, err := qs.BuildIndexA(eng, layoutA, dir)
 		if err != nil {
 			return fmt.Errorf("engine A index (%s): %v", eng, err)
 		}
@@ -986,7 +1019,7 @@ func modelFindingK1(c *core.Ctx) error {
 	if err != nil {
 		return err
 	}
-	a, err := qs.BuildIndexA(qs.EngScorch, qs.Layout{Segs: []int{2, 1}})
+	a, err := qs.BuildIndexA(qs.EngScorch, qs.Layout{Segs: []int{2, 1}}, "")
 	if err != nil {
 		return err
 	}
@@ -1034,7 +1067,7 @@ func replay(c *core.Ctx, path string) error {
 	if f.Replay.Heap > 0 {
 		searcher.DisjunctionHeapTakeover = f.Replay.Heap
 	}
-	ct, err := buildCorpus(f.Replay.Seed, f.Replay.History, liveOf(f.Replay.History), 0)
+	ct, err := buildCorpus(c, f.Replay.Seed, f.Replay.History, liveOf(f.Replay.History), 0)
 	if err != nil {
 		return err
 	}
